@@ -296,7 +296,7 @@ func (c *rmCase) exec(op string) string {
 func genRM(r *Rng, n int, tier string) []Case {
 	var cases []Case
 	for ci := 0; ci < n; ci++ {
-		limit := r.Pick(0, 1, 2, 3, 4, 5, 8, 8, 16)
+		limit := r.Pick(0, 1, 2, 3, 4, 5, 8, 8, 16, 16)
 		ops := []string{fmt.Sprintf("new limit=%d", limit)}
 		avail := int64(limit)
 		nextID := 1
@@ -306,14 +306,17 @@ func genRM(r *Rng, n int, tier string) []Case {
 		waitKey := map[int]int{}
 		waitN := map[int]int64{}
 		racy := r.Chance(25) // only some cases use closed/racing cancel channels
-		steps := r.Range(6, 24)
+		steps := r.Range(8, 30)
 		for s := 0; s < steps; s++ {
 			switch k := r.Intn(100); {
 			case k < 40:
 				id := nextID
 				nextID++
 				key := r.Intn(3)
-				amt := int64(r.Pick(0, 1, 1, 2, 3, int(avail), int(avail)+1, int(avail)-1, limit, limit+1, r.Range(0, limit+2)))
+				amt := int64(r.Pick(0, 1, 2, limit/2, limit/2+1, limit/2+1, limit-1, limit, int(avail), int(avail)+1, int(avail)+1, int(avail)-1, limit+1, r.Range(0, limit+2)))
+				if amt < 0 && !r.Chance(3) {
+					amt = 1
+				}
 				if r.Chance(3) {
 					amt = -int64(r.Range(1, 3))
 				}
@@ -333,8 +336,8 @@ func genRM(r *Rng, n int, tier string) []Case {
 						waitN[id] = amt
 					}
 				}
-			case k < 60:
-				if len(holders) > 0 && r.Chance(90) {
+			case k < 58:
+				if len(holders) > 0 && r.Chance(92) {
 					i := r.Intn(len(holders))
 					id := holders[i]
 					holders = append(holders[:i], holders[i+1:]...)
@@ -343,14 +346,22 @@ func genRM(r *Rng, n int, tier string) []Case {
 				} else {
 					ops = append(ops, fmt.Sprintf("release id=%d", r.Range(1, nextID)))
 				}
-			case k < 78:
-				if len(waiting) > 0 && r.Chance(85) {
-					id := waiting[r.Intn(len(waiting))]
-					ops = append(ops, fmt.Sprintf("recv key=%d", waitKey[id]))
+			case k < 80:
+				// receive a deferred grant where the belief state says one is due; otherwise make room
+				fit := -1
+				for _, w := range waiting {
+					if waitN[w] <= avail {
+						fit = w
+						break
+					}
+				}
+				switch {
+				case fit >= 0:
+					ops = append(ops, fmt.Sprintf("recv key=%d", waitKey[fit]))
 					// belief: the first fitting request of that key is granted (the implementation may
 					// pick another one; the final drain releases whatever is really held)
 					for i, w := range waiting {
-						if waitKey[w] == waitKey[id] && waitN[w] <= avail {
+						if waitKey[w] == waitKey[fit] && waitN[w] <= avail {
 							waiting = append(waiting[:i], waiting[i+1:]...)
 							holders = append(holders, w)
 							holdN[w] = waitN[w]
@@ -358,9 +369,14 @@ func genRM(r *Rng, n int, tier string) []Case {
 							break
 						}
 					}
-				} else if r.Chance(30) {
+				case len(waiting) > 0 && len(holders) > 0:
+					id := holders[0]
+					holders = holders[1:]
+					avail += holdN[id]
+					ops = append(ops, fmt.Sprintf("release id=%d", id))
+				case r.Chance(15):
 					ops = append(ops, fmt.Sprintf("recv key=%d", r.Intn(3)))
-				} else {
+				default:
 					ops = append(ops, "stats")
 				}
 			case k < 86:
